@@ -216,7 +216,19 @@ func Ident(v any) string {
 func (g *Gen) SimpleFilter() *jpref.Eq {
 	k := g.Keys[g.R.Intn(len(g.Keys))]
 	k2 := g.Keys[g.R.Intn(len(g.Keys))]
-	switch g.R.Intn(10) {
+	switch g.R.Intn(13) {
+	case 10:
+		// an operand rooted at the document ($), compared with one rooted at the element
+		root := P(Root(), Child(k2))
+		if g.R.Intn(2) == 0 {
+			root = P(Root(), Nth(g.R.Intn(3)))
+		}
+		return Bin([]string{"gt", "lt", "neq", "eq"}[g.R.Intn(4)], []*jpref.Eq{P(At()), P(At(), Child(k))}[g.R.Intn(2)], root)
+	case 11:
+		// membership in a list that comes from the data
+		return Bin("in", CInt(int64(1+g.R.Intn(30))), P(At(), Child(k)))
+	case 12:
+		return Bin("in", P(At(), Child(k)), P(At(), Child(k2)))
 	case 8:
 		// two multi-valued operands: true if ANY pairing satisfies the comparison
 		return Bin([]string{"lt", "gt", "eq"}[g.R.Intn(3)], P(At(), Child(k), Wild()), P(At(), Child(k2), Wild()))
